@@ -51,7 +51,7 @@ func (c12) Thresholds(tier string) map[string]int64 {
 }
 
 func (c12) Rule() string {
-	return "case = one generated program with a raised share of <<stop>> statements (at nesting depth 0-6, with statements after the stop in the same and in enclosing bodies) and of option groups that end a node (some with empty bodies); every enumerated path is driven to its end, then 10 further Next calls are made with arguments drawn from {0,1,-1,7,maxint,minint}. Oracle: each returns (nil,nil) without panicking and without any host-function, command or variable-store write event (recorded at the host boundary); finally a snapshot taken at the end is restored and the runner must run again exactly as the model does from that node entry. A second sub-workload writes the stop with extra words (<<stop now>>, <<stop {\"why\"}>>) nested 0-4 levels deep with statements after it at every level; nothing is predicted about such a command, but IF the runner reports the end, the end must be absorbing. A third sub-workload lets the end meet commands: (A) an asynchronous command (7 handler shapes, completion after 1-4 polls or only after the end was reported, with an error or nil) is the very last statement of the dialogue, nested 0-3 levels deep; (B) the game registered a command named stop (pending, failing, converted) and the script runs <<stop>>; (C) plain lines carry trailing <<if>> conditions (true, false, variables) with statements after them. Nothing is predicted about when the end is reported; from the first (nil,nil) on, 14 further calls - during which everything still pending completes with its error - must report the end with no host event, handler invocation or store write. Non-trivial: the end was reached with statements left in the continuation (stop) or right after an option group. Distinct by hash of scripts+choices."
+	return "case = one generated program with a raised share of <<stop>> statements (at nesting depth 0-6, with statements after the stop in the same and in enclosing bodies) and of option groups that end a node (some with empty bodies); every enumerated path is driven to its end, then 10 further Next calls are made with arguments drawn from {0,1,-1,7,maxint,minint}. Oracle: each returns (nil,nil) without panicking and without any host-function, command or variable-store write event (recorded at the host boundary); finally a snapshot taken at the end is restored and the runner must run again exactly as the model does from that node entry. A second sub-workload writes the stop with extra words (<<stop now>>, <<stop {\"why\"}>>) nested 0-4 levels deep with statements after it at every level; nothing is predicted about such a command, but IF the runner reports the end, the end must be absorbing. A third sub-workload lets the end meet commands: (A) an asynchronous command (7 handler shapes, completion after 1-4 polls or only after the end was reported, with an error or nil) is the very last statement of the dialogue, nested 0-3 levels deep; (B) the game registered a command named stop (pending, failing, converted) and the script runs <<stop>>; (C) plain lines carry trailing <<if>> conditions (true, false, variables) with statements after them, and an option may carry a condition that is not a boolean; (D) a pending command in the middle of a body reports success by closing its channel. Nothing is predicted about when the end is reported; from the first (nil,nil) on, 14 further calls - during which everything still pending completes with its error - must report the end with no host event, handler invocation or store write. Non-trivial: the end was reached with statements left in the continuation (stop) or right after an option group. Distinct by hash of scripts+choices."
 }
 
 func (c12) Assumptions() []string {
